@@ -77,6 +77,7 @@ def generate(tier, rng):
             good = bytes(range(1, cnt + 1))
             for enc in (head(4, cnt) + good, b"\x9f" + good + b"\xff", head(4, cnt) + good[:-1] + b"\x61" if cnt else b"\x80", head(4, cnt + 1) + good, b"\x9f" + good):
                 out.append("DROPS %s %s" % (k, hexs(enc)))
+    out += iter_twins(out)        # Decoder::array_iter / map_iter (context-free twins of the iterators the Vec / map impls use)
     return out
 
 def nontrivial(line, impl):
